@@ -10,17 +10,18 @@ From Coq Require Export List Arith Bool String Lia.
 Export ListNotations.
 
 Inductive why :=
-| Inbox           (* ConsumeEvent / reset: send into an event node's inbox, drained by the node's run loop; once that loop has
-                     ended the node's `running` flag is off and the event is dropped instead (all other inbox sends are selects
-                     with a cancellation alternative: more tokens than the inbox holds may converge on one node) *)
 | Reply           (* send on a reply channel created with capacity 1 for exactly one answer *)
 | TracerInternal  (* handshakes of the tracer's own loop: the peer is waiting in SubscribeChannel/Unsubscribe, the
                      termination message has one sender and one receiver; delivery to a subscriber relies on the
                      subscriber reading (documented contract of Subscribe) *)
-| Other.          (* Cancel(): the task/sub-process run loop answers every cancel message; WaitUntilComplete's signal is buffered(1) *)
+| Other.          (* WaitUntilComplete's signal is buffered(1).  (The receive of an activity's Cancel() answer was listed here
+                     until round 8 with the reason "the run loop answers every cancel message": false once the run loop has
+                     ended -- /repo cd79c3c made that receive a select with the cancellation as alternative.  Likewise the
+                     sends into an event node's inbox (ConsumeEvent / reset) were listed as "drained by the run loop, dropped
+                     once its running flag is off": between the loop's last receive and the flag's reset the inbox fills and
+                     the sender stays for ever -- since /repo 223e3af they are selects watching a channel the node closes when its goroutine ends.) *)
 
 Definition allowed : list (string * why) := [
-  ("activity.go|newHarness|recv|<-node.activity.Cancel()#1"%string, Other);
   ("activity.go|*harness.run|send|m.response <- out#1"%string, Reply);
   ("activity.go|*harness.run|send|out <- m.rsp#1"%string, Reply);
   ("activity.go|*harness.run|send|m.reply <- false#1"%string, Reply);
@@ -32,16 +33,12 @@ Definition allowed : list (string * why) := [
   ("event_catch.go|*catchEvent.run|send|actionChan <- flowAction{sequenceFlows: allSequenceFlows(&evt.outgoing)}#1"%string, Reply);
   ("event_catch.go|*catchEvent.run|send|m.response <- flowAction{sequenceFlows: allSequenceFlows(&evt.outgoing)}#1"%string, Reply);
   ("event_catch.go|*catchEvent.run|send|actionChan <- noAction{}#1"%string, Reply);
-  ("event_catch.go|*catchEvent.ConsumeEvent|send|evt.mch <- processEventMessage{event: ev}#1"%string, Inbox);
-  ("event_catch.go|*catchEvent.reset|send|evt.mch <- resetMessage{}#1"%string, Inbox);
   ("event_end.go|*endEvent.run|send|m.response <- completeAction{}#1"%string, Reply);
   ("event_end.go|*endEvent.run|send|m.response <- completeAction{}#2"%string, Reply);
   ("event_start.go|*startEvent.run|send|m.response <- flowAction{sequenceFlows: allSequenceFlows(&evt.outgoing)}#1"%string, Reply);
   ("event_start.go|*startEvent.run|send|m.response <- completeAction{}#1"%string, Reply);
-  ("event_start.go|*startEvent.ConsumeEvent|send|evt.mch <- eventMessage{event: ev}#1"%string, Inbox);
   ("event_throw.go|*throwEvent.run|send|m.response <- flowAction{sequenceFlows: allSequenceFlows(&evt.outgoing)}#1"%string, Reply);
   ("event_throw.go|*throwEvent.run|send|m.response <- completeAction{}#1"%string, Reply);
-  ("event_throw.go|*throwEvent.ConsumeEvent|send|evt.mch <- eventMessage{event: ev}#1"%string, Inbox);
   ("gateway.go|distributeFlows|send|action <- completeAction{}#1"%string, Reply);
   ("gateway.go|distributeFlows|send|action <- flowAction{ sequenceFlows: sequenceFlows[i:rangeEnd], unconditionalFlows: indice#1"%string, Reply);
   ("gateway.go|distributeFlows|send|action <- completeAction{}#2"%string, Reply);
